@@ -409,3 +409,17 @@ func shortObj(o types.Object) string {
 	}
 	return o.Name()
 }
+
+func (p *Prog) sizeofBasic(b *types.Basic) int64 {
+	switch b.Kind() {
+	case types.Int8, types.Uint8, types.Bool:
+		return 1
+	case types.Int16, types.Uint16:
+		return 2
+	case types.Int32, types.Uint32, types.Float32:
+		return 4
+	case types.Int64, types.Uint64, types.Float64:
+		return 8
+	}
+	return -1 // int/uint/uintptr: platform dependent, never "the same width"
+}
